@@ -2,6 +2,7 @@
 (* case:  <id> MAP <n0> <op;op;...|-> <op> <op> ...    every <op> applied (independently) to the state reached by the path
           <id> SEQ <n0> <op> <op> ...                  ops applied in sequence
    op  :  S=<k>=<v>  G=<k>  D=<k>  A=<n0>=<M{..}>  P=<n0>=<M{..}>  F  R  X=<lo>=<hi>  L  I  Q=<n0>=<M{..}>
+          T=<k1>=<v1>=<k2>=<v2>...  (evalMapLiteral of the written pairs: the state becomes that literal)
    out :  <id> <obs> <obs> ...   obs = <s|b><content after the op>|<result>    or  P  (Go failure)
    result: - | value | none (Get) | 0/1 (Delete) | first: N or M{"key":k,"value":v} | rest: nil / map | len
            | hex of Inspect | e<0|1>c<-1|0|1> (Equals, Cmp with the operand map)                               *)
@@ -89,6 +90,12 @@ let apply m tok =
         let c = match cmp a b with Val Lt -> "-1" | Val Eq -> "0" | Val Gt -> "1" | GoPanic -> "P" in
         same ("e" ^ e ^ "c" ^ c)
       | GoPanic -> (m, "P"))
+  | "T" :: items ->
+    let rec pairs = function
+      | k :: v :: rest -> (parse_value k, parse_value v) :: pairs rest
+      | [] -> []
+      | _ -> failwith ("bad literal " ^ tok) in
+    moved (mliteral cmp_c (pairs items))
   | _ -> failwith ("bad op " ^ tok)
 
 let () = iter_lines (fun line ->
